@@ -177,6 +177,15 @@ def fixed_corpus():
     out += [(e2, 'scalar', sympy.sin(C.div(F2)), 'corpus:sin(div F)'),
             (e2, 'scalar', h2 * sympy.exp(C.dot(C.grad(h2), C.grad(h2))), 'corpus:h*exp(|grad h|^2)'),
             (e3, 'vector', sympy.cos(C.div(F)) * C.curl(G), 'corpus:cos(div F)*curl(G)')]
+    # a power whose exponent is a coordinate function (no field in it, yet not a constant): the lowering of
+    # rot / curl / div / bracket of it needs the log(b)*d(e) term of the power rule (seeded change C01-7)
+    x2, y2 = e2.coords[:2]
+    b2 = h2 ** 2 + 1
+    out += [(e2, 'vector', C.rot(b2 ** x2), 'corpus:rot((h^2+1)^x)'),
+            (e2, 'scalar', C.bracket(b2 ** y2, e2.sf[0]), 'corpus:bracket((h^2+1)^y,f)'),
+            (e2, 'scalar', C.curl(b2 ** x2 * F2), 'corpus:curl((h^2+1)^x*F)'),
+            (e2, 'scalar', C.div(b2 ** (x2 * y2) * C.grad(h2)), 'corpus:div((h^2+1)^(xy)*grad h)'),
+            (e3, 'vector', C.curl((h ** 2 + 1) ** e3.coords[2] * F), 'corpus:curl((h^2+1)^z*F) 3d')]
     e1 = Env(1, False, tag='k')
     F1, G1, H1 = e1.vf
     # finding C01-1d-mixed (fixed): a scalar form and a 1x1 matrix are added as 1x1 matrices
